@@ -14,3 +14,5 @@ import Props.C16_xml
 #print axioms SpyneModel.Props.C16xml.xsi_type_marks_runtime_class
 #print axioms SpyneModel.Props.C16xml.nonpoly_declared_fields_only
 #print axioms SpyneModel.Props.C16xml.members_in_declared_order
+#print axioms SpyneModel.Props.C16xml.stream_emission_same_tree
+#print axioms SpyneModel.Props.C16xml.poly_roundtrip_stream
